@@ -99,6 +99,10 @@ class Env:
         self.m_of_real_s: dict[int, int] = {}  # live backend study id -> model id
         self.m_of_real_t: dict[int, int] = {}
         self.violations: list[str] = []
+        # model objects created by operations whose result nobody saw (issuer crashed):
+        # their backend id is learnt from the first read that shows them
+        self.pending_t: tuple = ()
+        self.pending_s: tuple = ()
 
     def bind_study(self, h: str, real: int, m: int) -> None:
         if real in self.m_of_real_s:
@@ -117,6 +121,27 @@ class Env:
 
     def mtid(self, real: int) -> int:
         return self.m_of_real_t.get(real, -1 - abs(real))
+
+    def same_trial(self, real: int, m: int) -> bool:
+        """Does backend id `real` name model trial `m`?  Binds a pending model trial."""
+        got = self.m_of_real_t.get(real)
+        if got is not None:
+            return got == m
+        if m in self.pending_t:
+            self.pending_t = tuple(x for x in self.pending_t if x != m)
+            self.m_of_real_t[real] = m
+            return True
+        return False
+
+    def same_study(self, real: int, m: int) -> bool:
+        got = self.m_of_real_s.get(real)
+        if got is not None:
+            return got == m
+        if m in self.pending_s:
+            self.pending_s = tuple(x for x in self.pending_s if x != m)
+            self.m_of_real_s[real] = m
+            return True
+        return False
 
     def drop_study(self, model: ModelStorage, msid: int) -> None:
         """Call *before* model.delete_study: forget bindings of the objects that die."""
@@ -342,7 +367,7 @@ def apply_model(model: ModelStorage, op: dict, env: Env, real_res: tuple) -> tup
                 for (rid, rt), mt_ in zip(rv, mv):
                     if not _trial_matches(rt, mt_):
                         return ("diff", "get_all_trials(states=%r): trial differs: backend %r contract %r" % (f, rt, mt_))
-                    if env.mtid(rid) != model.studies[msid]["trials"][mt_["number"]]:
+                    if not env.same_trial(rid, model.studies[msid]["trials"][mt_["number"]]):
                         return ("diff", "get_all_trials: trial number %d carries id %r which names another object" % (mt_["number"], rid))
                 return ("ok",)
             if k == "get_n_trials":
@@ -356,21 +381,21 @@ def apply_model(model: ModelStorage, op: dict, env: Env, real_res: tuple) -> tup
                 if rt["number"] not in nums:
                     return ("diff", "get_best_trial: backend number %r, contract one of %r" % (rt["number"], nums))
                 mt = model.studies[msid]["trials"][rt["number"]]
-                if not _trial_matches(rt, model.view(mt)) or env.mtid(rid) != mt:
+                if not _trial_matches(rt, model.view(mt)) or not env.same_trial(rid, mt):
                     return ("diff", "get_best_trial: trial differs from stored one: %r vs %r" % (rt, model.view(mt)))
                 return ("ok",)
             if k == "get_trial_id_from_study_id_trial_number":
                 mt = model.get_trial_id_from_study_id_trial_number(msid, op["number"])
                 if got_err is not None:
                     return expect("<id>")
-                if env.mtid(real_res[1][1]) != mt:
+                if not env.same_trial(real_res[1][1], mt):
                     return ("diff", "number->id lookup returned id %r which is not trial %d of the study" % (real_res[1][1], op["number"]))
                 return ("ok",)
         if k == "get_study_id_from_name":
             msid = model.get_study_id_from_name(op["name"])
             if got_err is not None:
                 return expect("<id>")
-            if env.msid(real_res[1][1]) != msid:
+            if not env.same_study(real_res[1][1], msid):
                 return ("diff", "get_study_id_from_name returned %r, another study" % (real_res[1][1],))
             return ("ok",)
         if k == "get_all_studies":
@@ -380,6 +405,9 @@ def apply_model(model: ModelStorage, op: dict, env: Env, real_res: tuple) -> tup
             rv = real_res[1]
             seen = {}
             for s in rv:
+                if s["sid"] not in env.m_of_real_s:
+                    for cand in [x for x in mv if x["sid"] in env.pending_s and (x["name"] == s["name"] or x["name"].startswith("\0anon"))][:1]:
+                        env.same_study(s["sid"], cand["sid"])
                 seen[env.msid(s["sid"])] = s
             if len(seen) != len(rv) or set(seen) != {s["sid"] for s in mv}:
                 return ("diff", "get_all_studies: backend %r, contract %r" % (sorted(s["name"] for s in rv), sorted(s["name"] for s in mv)))
